@@ -1035,7 +1035,8 @@ fn gen_arg(rng: &mut Rng, g: G, seq: usize) -> Arg {
             Arg::S(format!("v{seq}{}", text::value_line(rng, na, false).trim_end()))
         }
         G::Word => Arg::S(w(rng)),
-        G::Url => Arg::S(format!("https://example.com/{}", w(rng))),
+        // paths with and without a trailing slash, a query, a fragment: the setter must store the URL it was given
+        G::Url => Arg::S(format!("https://example.com/{}{}", w(rng), rng.s(&["", "", "/", "/sub/", "?a=b&c=d", "#frag", "/x.git/"]))),
         G::Vcs => Arg::S(format!("https://example.com/{}.git{}", w(rng), rng.s(&["", " -b main", " [sub]", " -b debian/sid [x]"]))),
         G::Rel | G::RelCtl => {
             // substitution variables are part of a control file's relationship syntax
